@@ -62,12 +62,12 @@ TEMPL = {
 }
 
 
-def try_define(dec, module, name):
+def try_define(dec, module, name, q_ann=""):
     body = TEMPL.get((module, name))
     generic = body is None
     if generic:
         body = f"z = {module}.{name}(g)"
-    params = "g: grid.Grid[Any, Any]" + (", df" if name == "reverse" else "") + (", q" if module == "atom" else "")
+    params = "g: grid.Grid[Any, Any]" + (", df" if name == "reverse" else "") + (f", q{q_ann}" if module == "atom" else "")
     src = HDR + f"@{dec}\ndef k({params}):\n    {body}\n"
     try:
         T.load_source(src, "voc")
@@ -127,6 +127,18 @@ def run(ctx):
                 ctx.disagree(case, res, model, "decorator behaviour vs dialect-group membership")
             if res != want:
                 ctx.fail(case, f"@{kind} {res} {m}.{n}, but the documented vocabulary says it is {want}")
+            # the same call with differently annotated list operands: whatever is accepted with an un-annotated operand is
+            # accepted with an operand annotated as an IList too.  (Keyword forms are NOT part of this check: on the pinned
+            # tree the published parameter names of many wrappers - all of bloqade-geometry's grid wrappers, filled.shift/
+            # scale/repeat, measure.measure - differ from the statement fields kirin matches keywords against, so keyword calls
+            # of vocabulary members are refused with "Unexpected keyword argument"; that is no vocabulary verdict.)
+            if res == "accepted" and want == "accepted" and not generic and m == "atom":
+                for ann in (": ilist.IList", ": ilist.IList[Any, Any]"):
+                    r2, _ = try_define(kind, m, n, q_ann=ann)
+                    ctx.count("operand_annotation_variants")
+                    if r2 != "accepted":
+                        ctx.fail(dict(case, operand_annotation=ann),
+                                 f"@{kind} accepts {m}.{n} with an un-annotated list operand but not with one annotated{ann}: {r2[:160]}")
     ctx.traces_validated = ctx.counts.get("pairs", 0)
     ctx.exhaustive = True
     ctx.sample({"wrapper": "action.set_loc", "results": {k: try_define(k, "action", "set_loc")[0] for k in DOCUMENTED}})
